@@ -158,15 +158,27 @@ def cases_of(shard, tier, seed, counters=None):
 QUIET = ("ok", "rejected", "out_of_scope", "unsupported_api")
 
 
-def first_failing_prefix(case, ctx):
-    """attribute a failure of a k-step program to its shortest failing prefix (the defect sits in that step)"""
-    prog = case[5]
-    for k in range(1, len(prog)):
-        sub = case[:5] + (prog[:k],) + case[6:]
-        r = evaluate(sub, None, ctx.seed)
-        if r[0] not in QUIET:
-            return k, r
-    return len(prog), None
+def minimize(case, status, detail, seed):
+    """delta-debugging on the step sequence: drop steps while the program stays valid for pandas and still fails with the same
+    status; the surviving steps name the finding.  -> (program, status, detail, pandas intermediates)"""
+    prog = list(case[5])
+    root = index_frame(dfh.base_frames(seed, NROWS)[case[1]], case[2])
+    pxs = None
+    progress = True
+    while progress and len(prog) > 1:
+        progress = False
+        for i in range(len(prog) - 1, -1, -1):
+            cand = tuple(prog[:i] + prog[i + 1 :])
+            try:
+                with np.errstate(all="ignore"):
+                    cxs = P.run_pandas(cand, root, None)
+            except Exception:  # noqa: BLE001
+                continue
+            r = evaluate(case[:5] + (cand,) + case[6:], cxs, seed)
+            if r[0] == status:
+                prog, detail, pxs, progress = list(cand), r[1], cxs, True
+                break
+    return tuple(prog), status, detail, pxs
 
 
 def input_class(x):
@@ -232,9 +244,8 @@ def run_case(case, ctx, pxs=None):
         return
     k = len(prog)
     if len(prog) > 1:
-        k, r = first_failing_prefix(case, ctx)
-        if r is not None:
-            status, detail = r[0], r[1]
+        prog, status, detail, mxs = minimize(case, status, detail, ctx.seed)
+        pxs, k = (mxs or pxs), len(prog)
     step = prog[k - 1]
     if status.startswith("dask-raises") and len(pxs[k - 1]) == 0 and rejected_on_nonempty(step, pxs[k - 1]):
         ctx.count("inapplicable")  # pandas accepts the step only because the frame is EMPTY; it rejects the schema as soon as there is a row
@@ -250,11 +261,12 @@ def run_case(case, ctx, pxs=None):
     else:
         cls = known_class(step, status, pxs[k - 1])
         if cls is None and k >= 2:
-            # every proper prefix passes: an INTERACTION of the last two steps (typically an optimizer rewrite); named by the pair
-            key = f"{P.sig(prog[k - 2])}>{P.sig(step)}:{status}:chain"
+            # no shorter program fails: an INTERACTION between a producer and its consumers (typically an optimizer rewrite or a
+            # partition-dependent dtype of the producer); named by the producer, whatever the consumer
+            key = f"{P.chain_sig(prog[k - 2])}>*:{status}:chain"
         else:
             key = f"{P.sig(step)}:{status}:{cls or input_class(pxs[k - 1])}"
-    ctx.violation(key, case, f"step {k} of {len(prog)}: {detail}")
+    ctx.violation(key, case, f"minimal failing program [{P.program_src(prog)}]: {detail}")
 
 
 def rejected_on_nonempty(step, x):
